@@ -45,9 +45,11 @@ FIELDS = ["hdd_bp", "hdd_beta", "hdd_k", "cdd_bp", "cdd_beta", "cdd_k"]
 
 # ------------------------------------------------------------------ the oracle (statement, literally)
 
-def metrics(spec, o):
-    """the numbers of the statement from the implementation's columns"""
-    b, y2 = o["base"], o["year2"]
+def metrics(spec, o, stage=None):
+    """the numbers of the statement from the implementation's columns (stage: None = the fitted model,
+    'json' / 'dict' = the model restored from to_json() / to_dict())"""
+    src = o if stage is None else o["reload"][stage]
+    b, y2 = src["base"], src["year2"]
     T, pred, obs = np.array(b["T"]), np.array(b["pred"]), np.array(b["obs"])
     g = L.g_curve(spec, T)
     T2, p2 = np.array(y2["T"]), np.array(y2["pred"])
@@ -144,20 +146,57 @@ def oracle(spec, o, m):
               and failure in ("nrmse_second_year", "spurious_heating_load", "spurious_cooling_load")):
             s["finding_class"] = "noise-free-seasonal-split"
         return s
+    criteria(spec, m, cls, fails, "")
+    # ---- reload stage: the same criteria on the model restored from its document, and fitted-vs-restored agreement
+    reported = {f[0]["failure"] for f in fails}
+    for how in ("json", "dict"):
+        r = o.get("reload", {}).get(how)
+        if r is None:
+            continue
+        label = "to_%s/from_%s" % (how, how)
+
+        def rcls(failure, how=how):
+            s = cls(failure)
+            s["stage"] = "restored_" + how
+            return s
+        if "exception" in r:
+            fails.append((dict(sig0, failure="reload_raised", stage="restored_" + how, exception=r["exception"].split(":")[0]),
+                          "the fitted model cannot be restored and used through %s: %s" % (label, r["exception"])))
+            continue
+        worst = 0.0
+        for part in ("base", "year2"):
+            for col in ("pred", "heat", "cool"):
+                a, b2 = np.array(o[part][col]), np.array(r[part][col])
+                if a.shape != b2.shape:
+                    worst = float("inf")
+                else:
+                    worst = max(worst, float(np.max(np.abs(a - b2) / np.maximum(1.0, np.abs(a)))) if len(a) else 0.0)
+        if worst > 1e-9:
+            fails.append((dict(sig0, failure="restored_model_differs", stage="restored_" + how),
+                          "the model restored through %s predicts differently from the fitted one (relative difference %.3g)" % (label, worst)))
+            rfails = []
+            criteria(spec, metrics(spec, o, how), rcls, rfails, " [model restored through %s]" % label)
+            # a failure the fitted model shows as well is the same finding; report what the restored model adds
+            fails += [f for f in rfails if f[0]["failure"] not in reported]
+    return fails
+
+
+def criteria(spec, m, cls, fails, where):
+    """the statement's inequalities on one set of predict() columns"""
     if not m["nrmse_in_ok"]:
-        fails.append((cls("nrmse_baseline"), "NRMSE against the generating curve on the baseline = %.4f > 0.05" % m["nrmse_in"]))
+        fails.append((cls("nrmse_baseline"), "NRMSE against the generating curve on the baseline = %.4f > 0.05%s" % (m["nrmse_in"], where)))
     if not m["nrmse_out_ok"]:
-        fails.append((cls("nrmse_second_year"), "NRMSE against the generating curve on a different weather year = %.4f > 0.05" % m["nrmse_out"]))
+        fails.append((cls("nrmse_second_year"), "NRMSE against the generating curve on a different weather year = %.4f > 0.05%s" % (m["nrmse_out"], where)))
     if spec["bh"] == 0:
         if not m["heat_in_ok"]:
-            fails.append((cls("spurious_heating_load"), "heating load %.4f of usage on the baseline, generator has none" % (m["heat_in"] / m["use_in"])))
+            fails.append((cls("spurious_heating_load"), "heating load %.4f of usage on the baseline, generator has none%s" % (m["heat_in"] / m["use_in"], where)))
         if not m["heat_out_ok"]:
-            fails.append((cls("spurious_heating_load"), "heating load %.4f of usage on the second year, generator has none" % (m["heat_out"] / m["use_out"])))
+            fails.append((cls("spurious_heating_load"), "heating load %.4f of usage on the second year, generator has none%s" % (m["heat_out"] / m["use_out"], where)))
     if spec["bc"] == 0:
         if not m["cool_in_ok"]:
-            fails.append((cls("spurious_cooling_load"), "cooling load %.4f of usage on the baseline, generator has none" % (m["cool_in"] / m["use_in"])))
+            fails.append((cls("spurious_cooling_load"), "cooling load %.4f of usage on the baseline, generator has none%s" % (m["cool_in"] / m["use_in"], where)))
         if not m["cool_out_ok"]:
-            fails.append((cls("spurious_cooling_load"), "cooling load %.4f of usage on the second year, generator has none" % (m["cool_out"] / m["use_out"])))
+            fails.append((cls("spurious_cooling_load"), "cooling load %.4f of usage on the second year, generator has none%s" % (m["cool_out"] / m["use_out"], where)))
     return fails
 
 
